@@ -1927,7 +1927,7 @@ class MPO(MPSGeometry):
                 other_max_range = other.max_range
                 if other_max_range is None or other_max_range == np.inf:
                     other_max_range = other.L
-                num_sites = max(self.L + 2 * self_max_range, other.L + 2 * other.max_range)
+                num_sites = max(self.L + 2 * self_max_range, other.L + 2 * other_max_range)
             assert num_sites >= self.L
             if not understood_infinite:
                 msg = (
